@@ -78,6 +78,17 @@ func (c *compiler) emitPush(value interface{}) int {
 
 func (c *compiler) makeConstant(i interface{}) []byte {
 	hashable := isHashable(i)
+	// -0.0 equals 0.0 as a key of the index, but it is another constant.
+	switch f := i.(type) {
+	case float64:
+		if f == 0 && math.Signbit(f) {
+			hashable = false
+		}
+	case float32:
+		if f == 0 && math.Signbit(float64(f)) {
+			hashable = false
+		}
+	}
 
 	if hashable {
 		if p, ok := c.index[i]; ok {
